@@ -9,7 +9,7 @@ t=$(cargo test --offline 2>&1 | grep "test result" | tr '\n' ' ')
 echo "tests-with-patch: $t"
 demo=mutants/demo$i
 run_demo() {
-  cmd=$(grep -m1 -o "cargo run[^;|\`]*" mutants/demo$i.md | sed 's/2>.*//')
+  cmd=$(grep -m1 -o "cargo run[^;|\`)#]*" mutants/demo$i.md | sed 's/2>.*//')
   [ -z "$cmd" ] && cmd="cargo run --offline --quiet"
   case "$cmd" in *--offline*) ;; *) cmd="$cmd --offline";; esac
   rundir=$demo; case "$cmd" in *--manifest-path*) rundir=$wt;; esac
